@@ -186,6 +186,25 @@ func runC12(p *Prog, r *Report) {
 		r.Fn(FuncName(disabledFn))
 	}
 
+	// the step rule delegated to a helper (offset += change(rule, step)): the arithmetic rules
+	// R2-R4 are written for updates made in place and do not decide this form
+	delegated := ""
+	c12Hosts(fn, R.body)(func(in ssa.Instruction) {
+		st, ok := in.(*ssa.Store)
+		if !ok || puField(st.Addr) != "offset" {
+			return
+		}
+		if bo, ok := stripConv(st.Val).(*ssa.BinOp); ok && (bo.Op == token.ADD || bo.Op == token.SUB) && puField(stripConv(bo.X)) == "offset" {
+			if call, isCall := stripConv(bo.Y).(*ssa.Call); isCall && isModuleFn(call.Call.StaticCallee()) {
+				delegated = FuncName(call.Call.StaticCallee()) + " at " + p.InstrPos(st)
+			}
+		}
+	})
+	if delegated != "" {
+		r.Unk("C12.anchor", "offset update computed by a helper", p.Pos(fn.Pos()), "the amount added to the offset is computed by "+delegated+": whether it is always a whole number of quanta, and paired with the step limits, is not decided for this form")
+		return
+	}
+
 	// ---- R1
 	var extraPhis []string
 	for _, in := range main.Header.Instrs {
